@@ -59,7 +59,16 @@ func (x *Exec) returnAssertions(st *State, in *ssa.Return, results []Val) {
 			canary = true
 			x.obls = append(x.obls, &Obligation{Name: x.short + ":reach:" + ca.Site, Kind: "site-reach", Props: x.props(), Prefix: x.out.Len(), Live: st.live, Goal: "false", Canary: true, Func: x.short})
 		}
-		t := x.evalClauseDual(ca, x.fn, st, x.entry, results, false, nil)[0].T
+		oldSt := x.entry
+		if strings.Contains(ca.Text, "athead(") {
+			// athead(e): e at the head of the innermost loop around this return statement
+			if hs := x.headStateFor(in); hs != nil {
+				oldSt = hs
+			} else {
+				x.errorf("athead() used at %s, which is not inside a loop", ca.Site)
+			}
+		}
+		t := x.evalClauseDual(ca, x.fn, st, oldSt, results, false, nil)[0].T
 		nth := 0
 		for _, other := range x.fc.RetAsrt {
 			if other.Site == ca.Site {
